@@ -905,7 +905,8 @@ class AstToCfg(ast.NodeVisitor):
 
     if node.type is not None:
       self.visit(node.type)
-    if node.name is not None:
+    if node.name is not None and not isinstance(node.name, str):
+      # In Python 3 the handler name is a plain identifier, not an AST node.
       self.visit(node.name)
 
     for stmt in node.body:
